@@ -85,6 +85,22 @@ def answers(path, probes, commits, queries):
             a["peeled"] = h(sorted((k, r.refs.get_peeled(k)) for k in r.refs.allkeys() if k.startswith(b"refs/tags/")))
         except Exception as e:  # noqa: BLE001
             a["peeled"] = "exc:" + type(e).__name__
+        # the reachability provider the store hands out (bitmap-backed when a pack has a bitmap)
+        try:
+            prov = st.get_reachability_provider()
+            pa = []
+            for hs, ex in ((heads[:1], None), (heads, None), (heads[-1:], heads[:1]), (present[:2], present[-1:])):
+                if not hs:
+                    continue
+                pa.append(sorted(prov.get_reachable_commits(hs, exclude=ex)))
+                pa.append(sorted(prov.get_tree_objects([st[c].tree for c in hs])))
+                try:
+                    pa.append(sorted(prov.get_reachable_objects(hs, exclude_commits=ex)))
+                except KeyError:
+                    pa.append("KeyError")           # a gitlink target; the same with or without acceleration data
+            a["provider"] = h(pa)
+        except Exception as e:  # noqa: BLE001
+            a["provider"] = "exc:" + type(e).__name__
         # the theorem's hypothesis: where the commit-graph knows a commit it gives the commit's own parents
         cg = st.get_commit_graph()
         bad = []
@@ -105,7 +121,10 @@ def write_accel(path, which, writer):
     if writer == "dulwich":
         r = Repo(path)
         try:
-            if "cg" in which:
+            if which == "cg-direct":
+                # only the commits the branches name, not their ancestors
+                r.object_store.write_commit_graph(sorted(v for k, v in r.refs.as_dict().items() if k.startswith(b"refs/heads/")), reachable=False)
+            elif "cg" in which:
                 r.object_store.write_commit_graph()
             if "midx" in which:
                 r.object_store.write_midx()
